@@ -549,4 +549,278 @@ theorem urlsplit_urlunsplit20 (scheme netloc path query fragment : Str)
   simp only [splitFirst_query _ _ h.path_noq]
   by_cases h1 : query = [] <;> by_cases h2 : fragment = [] <;> simp [h1, h2]
 
+/-! ## `str(n)` and `int(s)` -/
+
+theorem natToStr_eq (n : Nat) : natToStr n = Nat.toDigits 10 n := by
+  unfold natToStr
+  show (Nat.repr n).toList = _
+  exact Nat.toList_repr
+
+theorem isAsciiDigit_of_isDigit {c : Char} (h : c.isDigit = true) : isAsciiDigit c = true := by
+  simp only [Char.isDigit, Bool.and_eq_true, decide_eq_true_eq] at h
+  simp only [isAsciiDigit, decide_eq_true_eq, Char.le_def]
+  exact ⟨h.1, h.2⟩
+
+theorem natToStr_digits (n : Nat) : ∀ c ∈ natToStr n, isAsciiDigit c = true := by
+  intro c hc
+  rw [natToStr_eq] at hc
+  exact isAsciiDigit_of_isDigit (Nat.isDigit_of_mem_toDigits (by decide) (by decide) hc)
+
+theorem natToStr_ne_nil (n : Nat) : natToStr n ≠ [] := by
+  rw [natToStr_eq]; exact Nat.toDigits_ne_nil
+
+theorem foldl_toDigits (n : Nat) :
+    (Nat.toDigits 10 n).foldl (fun n c => n * 10 + (c.toNat - '0'.toNat)) 0 = n := by
+  induction n using Nat.strongRecOn with
+  | _ n ih =>
+    rw [Nat.toDigits_eq_if (by decide)]
+    by_cases h : n < 10
+    · rw [if_pos h]
+      simp only [List.foldl_cons, List.foldl_nil, Nat.zero_mul, Nat.zero_add]
+      exact Nat.toNat_digitChar_sub_48_of_lt_ten h
+    · rw [if_neg h, List.foldl_append, ih (n / 10) (by omega)]
+      simp only [List.foldl_cons, List.foldl_nil]
+      have : (n % 10).digitChar.toNat - '0'.toNat = n % 10 :=
+        Nat.toNat_digitChar_sub_48_of_lt_ten (by omega)
+      rw [this]; omega
+
+/-- `int(str(n)) == n` -/
+theorem strToNat_natToStr (n : Nat) : strToNat? (natToStr n) = some n := by
+  unfold strToNat?
+  have h1 : natToStr n ≠ [] := natToStr_ne_nil n
+  have h2 : (natToStr n).all isAsciiDigit = true := List.all_eq_true.2 (natToStr_digits n)
+  rw [if_pos ⟨h1, h2⟩, natToStr_eq, foldl_toDigits]
+
+theorem not_mem_natToStr {c : Char} (hc : isAsciiDigit c = false) (n : Nat) : c ∉ natToStr n := by
+  intro h; rw [natToStr_digits n c h] at hc; cases hc
+
+/-! ## `rpartition` -/
+
+theorem splitLast_append_sep (a b : Str) (sep : Char) (h : sep ∉ b) :
+    splitLast (a ++ sep :: b) sep = (some a, b) := by
+  unfold splitLast
+  rw [span_eq_s20]
+  have hr : (a ++ sep :: b).reverse = b.reverse ++ sep :: a.reverse := by simp
+  rw [hr,
+    takeWhile_append_stop _ b.reverse (sep :: a.reverse)
+      (fun c hc => by
+        simp only [ne_eq, decide_eq_true_eq]; rintro rfl; exact h (List.mem_reverse.1 hc))
+      (fun c hc => by simp at hc; simp [← hc]),
+    dropWhile_append_stop _ b.reverse (sep :: a.reverse)
+      (fun c hc => by
+        simp only [ne_eq, decide_eq_true_eq]; rintro rfl; exact h (List.mem_reverse.1 hc))
+      (fun c hc => by simp at hc; simp [← hc])]
+  simp
+
+theorem splitLast_notMem (s : Str) (sep : Char) (h : sep ∉ s) : splitLast s sep = (none, s) := by
+  unfold splitLast
+  rw [span_eq_s20]
+  have h1 : ∀ c ∈ s.reverse, (decide (c ≠ sep)) = true := by
+    intro c hc; simp only [ne_eq, decide_eq_true_eq]; rintro rfl; exact h (List.mem_reverse.1 hc)
+  have e1 := takeWhile_append_stop (fun c => decide (c ≠ sep)) s.reverse [] h1 (by simp)
+  have e2 := dropWhile_append_stop (fun c => decide (c ≠ sep)) s.reverse [] h1 (by simp)
+  rw [List.append_nil] at e1 e2
+  rw [e1, e2]
+  simp
+
+/-! ## the netloc printed by `unsplit_netloc`, in normal form -/
+
+/-- a falsy component (`None` or `""`) counts as the empty string -/
+def strOf (o : Option Str) : Str := if truthy o then o.getD [] else []
+
+def authPart (U P : Str) : Str :=
+  if P ≠ [] then U ++ ':' :: P ++ ['@'] else if U ≠ [] then U ++ ['@'] else []
+def hostPart (H : Str) : Str :=
+  if H.contains ':' ∧ ¬ startsWith H ['['] then '[' :: H ++ [']'] else H
+def portPart (port : Option Nat) : Str :=
+  match port with | some n => ':' :: natToStr n | none => []
+
+theorem truthy_some (s : Str) : truthy (some s) = true ↔ s ≠ [] := by
+  cases s <;> simp [truthy]
+
+theorem strOf_some (s : Str) : strOf (some s) = s := by
+  cases s <;> simp [strOf, truthy]
+
+theorem strOf_none : strOf none = [] := by simp [strOf, truthy]
+
+theorem unsplitNetloc_eq (user pass host : Option Str) (port : Option Nat) :
+    unsplitNetloc user pass host port =
+      authPart (strOf user) (strOf pass) ++ (hostPart (strOf host) ++ portPart port) := by
+  have hh : (if truthy host = true then host.getD [] else []) = strOf host := rfl
+  have hu : (if truthy user = true then user.getD [] else []) = strOf user := rfl
+  simp only [unsplitNetloc, hh, hu]
+  have hhp : (if (strOf host).contains ':' = true ∧ ¬startsWith (strOf host) ['['] = true then
+      ['['] ++ strOf host ++ [']'] else strOf host) = hostPart (strOf host) := by
+    unfold hostPart; split <;> simp
+  rw [hhp]
+  cases port with
+  | none =>
+    simp only [portPart, List.append_nil]
+    cases pass with
+    | none =>
+      cases user with
+      | none => simp [truthy, authPart, strOf_none]
+      | some u => cases u <;> simp [truthy, authPart, strOf_none, strOf_some]
+    | some p =>
+      cases p with
+      | nil =>
+        cases user with
+        | none => simp [truthy, authPart, strOf_none, strOf_some]
+        | some u => cases u <;> simp [truthy, authPart, strOf_none, strOf_some]
+      | cons pc pr =>
+        cases user with
+        | none => simp [truthy, authPart, strOf_none, strOf_some]
+        | some u => cases u <;> simp [truthy, authPart, strOf_none, strOf_some]
+  | some n =>
+    simp only [portPart]
+    cases pass with
+    | none =>
+      cases user with
+      | none => simp [truthy, authPart, strOf_none]
+      | some u => cases u <;> simp [truthy, authPart, strOf_none, strOf_some]
+    | some p =>
+      cases p with
+      | nil =>
+        cases user with
+        | none => simp [truthy, authPart, strOf_none, strOf_some]
+        | some u => cases u <;> simp [truthy, authPart, strOf_none, strOf_some]
+      | cons pc pr =>
+        cases user with
+        | none => simp [truthy, authPart, strOf_none, strOf_some]
+        | some u => cases u <;> simp [truthy, authPart, strOf_none, strOf_some]
+
+/-! ## the accessors on a printed netloc -/
+
+theorem mem_hostPart {c : Char} {H : Str} (h : c ∈ hostPart H) : c ∈ H ∨ c = '[' ∨ c = ']' := by
+  unfold hostPart at h
+  split at h
+  · simp only [List.mem_cons, List.mem_append, List.not_mem_nil, or_false] at h
+    rcases h with (h | h) | h
+    · exact Or.inr (Or.inl h)
+    · exact Or.inl h
+    · exact Or.inr (Or.inr h)
+  · exact Or.inl h
+
+theorem mem_portPart {c : Char} {port : Option Nat} (h : c ∈ portPart port) :
+    c = ':' ∨ isAsciiDigit c = true := by
+  cases port with
+  | none => simp [portPart] at h
+  | some n =>
+    simp only [portPart, List.mem_cons] at h
+    rcases h with h | h
+    · exact Or.inl h
+    · exact Or.inr (natToStr_digits n c h)
+
+theorem at_not_mem_rest (H : Str) (port : Option Nat) (hH : '@' ∉ H) :
+    '@' ∉ hostPart H ++ portPart port := by
+  intro hm
+  rcases List.mem_append.1 hm with h | h
+  · rcases mem_hostPart h with h | h | h
+    · exact hH h
+    · cases h
+    · cases h
+  · rcases mem_portPart h with h | h
+    · cases h
+    · revert h; decide
+
+theorem userinfo_auth (U P rest : Str) (hU : ':' ∉ U) (hr : '@' ∉ rest) :
+    userinfo (authPart U P ++ rest) =
+      (if P ≠ [] ∨ U ≠ [] then some U else none, if P ≠ [] then some P else none) := by
+  unfold userinfo authPart
+  by_cases hP : P = []
+  · by_cases hUe : U = []
+    · simp [hP, hUe, splitLast_notMem _ _ hr]
+    · simp only [hP, hUe, ne_eq, not_true_eq_false, not_false_eq_true, if_true, if_false,
+        List.append_assoc, List.singleton_append, false_or]
+      rw [splitLast_append_sep _ _ _ hr]
+      simp [splitFirst_notMem_s20 _ _ hU]
+  · simp only [hP, ne_eq, not_false_eq_true, if_true, List.append_assoc, List.singleton_append,
+      true_or, List.cons_append, List.nil_append]
+    have : U ++ ':' :: (P ++ '@' :: rest) = (U ++ ':' :: P) ++ '@' :: rest := by simp
+    rw [this, splitLast_append_sep _ _ _ hr]
+    simp [splitFirst_append_sep_s20 _ _ _ hU]
+
+theorem hostinfoStr_auth (U P rest : Str) (hr : '@' ∉ rest) :
+    hostinfoStr (authPart U P ++ rest) = rest := by
+  unfold hostinfoStr authPart
+  by_cases hP : P = []
+  · by_cases hUe : U = []
+    · simp [hP, hUe, splitLast_notMem _ _ hr]
+    · simp only [hP, hUe, ne_eq, not_true_eq_false, not_false_eq_true, if_true, if_false,
+        List.append_assoc, List.singleton_append]
+      rw [splitLast_append_sep _ _ _ hr]
+  · simp only [hP, ne_eq, not_false_eq_true, if_true, List.append_assoc, List.singleton_append,
+      List.cons_append, List.nil_append]
+    have : U ++ ':' :: (P ++ '@' :: rest) = (U ++ ':' :: P) ++ '@' :: rest := by simp
+    rw [this, splitLast_append_sep _ _ _ hr]
+
+theorem hostPortStr_host (H : Str) (port : Option Nat) (h1 : '[' ∉ H) (h2 : ']' ∉ H) :
+    hostPortStr (hostPart H ++ portPart port) =
+      (H, match port with | some n => natToStr n | none => []) := by
+  have hsw : startsWith H ['['] = false := by
+    cases H with
+    | nil => rfl
+    | cons c r =>
+      rw [startsWith_cons_cons, startsWith_nil]
+      have : c ≠ '[' := fun e => h1 (by simp [e])
+      simp [this]
+  unfold hostPortStr
+  by_cases hc : ':' ∈ H
+  · have hp : hostPart H = '[' :: (H ++ [']']) := by
+      unfold hostPart; simp [hc, hsw]
+    rw [hp]
+    simp only [List.cons_append, List.append_assoc, List.singleton_append]
+    rw [splitFirst_cons_s20, if_pos rfl]
+    simp only [splitFirst_append_sep_s20 _ _ _ h2, Option.getD_some]
+    cases port with
+    | none => simp [portPart, splitFirst_nil_s20]
+    | some n => simp [portPart, splitFirst_cons_s20]
+  · have hp : hostPart H = H := by unfold hostPart; simp [hc]
+    rw [hp]
+    have hb : '[' ∉ H ++ portPart port := by
+      intro hm
+      rcases List.mem_append.1 hm with h | h
+      · exact h1 h
+      · rcases mem_portPart h with h | h
+        · cases h
+        · revert h; decide
+    rw [splitFirst_notMem_s20 _ _ hb]
+    cases port with
+    | none => simp [portPart, splitFirst_notMem_s20 _ _ hc]
+    | some n => simp [portPart, splitFirst_append_sep_s20 _ _ _ hc]
+
+/-- **the accessors invert `unsplit_netloc`**: user and password (a falsy component reads
+back as absent, except that a password without user gives the empty user), the host
+lower-cased (an IPv6 literal gets its brackets and loses them again), the port -/
+theorem accessors_unsplitNetloc (user pass host : Option Str) (port : Option Nat)
+    (hu : ':' ∉ strOf user)
+    (hh : '@' ∉ strOf host ∧ '[' ∉ strOf host ∧ ']' ∉ strOf host)
+    (hp : ∀ n ∈ port, n ≤ 65535) :
+    username (unsplitNetloc user pass host port) =
+      (if strOf pass ≠ [] ∨ strOf user ≠ [] then some (strOf user) else none) ∧
+    password (unsplitNetloc user pass host port) =
+      (if strOf pass ≠ [] then some (strOf pass) else none) ∧
+    hostname (unsplitNetloc user pass host port) =
+      (if strOf host = [] then none else some (lowerHost (strOf host))) ∧
+    Py.port (unsplitNetloc user pass host port) = some port := by
+  rw [unsplitNetloc_eq]
+  have hr := at_not_mem_rest (strOf host) port hh.1
+  have hhi : hostinfo (authPart (strOf user) (strOf pass) ++
+      (hostPart (strOf host) ++ portPart port)) = (strOf host, port.map natToStr) := by
+    unfold hostinfo
+    rw [hostinfoStr_auth _ _ _ hr, hostPortStr_host _ _ hh.2.1 hh.2.2]
+    cases port with
+    | none => simp
+    | some n => simp [natToStr_ne_nil]
+  refine ⟨?_, ?_, ?_, ?_⟩
+  · unfold username; rw [userinfo_auth _ _ _ hu hr]
+  · unfold password; rw [userinfo_auth _ _ _ hu hr]
+  · unfold hostname; rw [hhi]
+  · unfold Py.port; rw [hhi]
+    cases port with
+    | none => rfl
+    | some n =>
+      simp only [Option.map_some, strToNat_natToStr]
+      rw [if_pos (hp n rfl)]
+
 end Ural.UrlRoundTrip
